@@ -62,7 +62,7 @@ class Rig:
 
     def run(self, scenario, config_toml="", args=(), signals=(), timeout=60, env_extra=None,
             subcommand="run", keep=False, tap_fail_at=None, supervise_stop=False, private_binaries=(),
-            hooks=(), tool_configs=()):
+            hooks=(), tool_configs=(), no_binaries=False):
         """private_binaries: binary ids whose executable is copied into the run directory (the copy's
         path is returned in res['private'][id]) so that a hook can tamper with it during the run.
         hooks: list of (trigger(ctx)->bool, action(ctx)) run once from the signal thread."""
@@ -103,6 +103,12 @@ class Rig:
                 shutil.copy2(src, dst)
                 bm["rust-binaries"][bid]["binary-path"] = dst
                 private[bid] = dst
+            binmeta = os.path.join(d, "binaries-metadata.json")
+            json.dump(bm, open(binmeta, "w"))
+        if no_binaries:
+            # the build produced no test binary at all (a package whose only target has test = false)
+            bm = json.load(open(binmeta))
+            bm["rust-binaries"] = {}
             binmeta = os.path.join(d, "binaries-metadata.json")
             json.dump(bm, open(binmeta, "w"))
         tool_args = []
